@@ -503,11 +503,13 @@ impl Server {
                 _ => return Ok(false), // no longer blocked: leave the element in the list
             };
             
+            // A key that is no longer a list (deleted and set again between the push and this
+            // wake-up) holds nothing for this client: it goes on waiting, as after an empty pop
             let value = match wakeup.op_type {
-                super::connection::BlockingOp::BLPop => self.storage.lpop(wakeup.db, &wakeup.key)?,
-                super::connection::BlockingOp::BRPop => self.storage.rpop(wakeup.db, &wakeup.key)?,
-                super::connection::BlockingOp::XReadBlock(_) => None,
-            };
+                super::connection::BlockingOp::BLPop => self.storage.lpop(wakeup.db, &wakeup.key),
+                super::connection::BlockingOp::BRPop => self.storage.rpop(wakeup.db, &wakeup.key),
+                super::connection::BlockingOp::XReadBlock(_) => Ok(None),
+            }.unwrap_or(None);
             
             match value {
                 Some(popped_value) => {
